@@ -1,6 +1,6 @@
 CONSTANTS
   NModels = 3
-  NOperators = 56
+  NOperators = 57
   MaxSite = 7
 INIT Init
 NEXT Next
